@@ -80,8 +80,9 @@ func vpSameIDSet(a, b []PDU) bool {
 
 func vpNotRejected(string) bool { return false }
 
-// vp:check C10 both configs=version:10|12;shape:topic|ban-vs-name K=24 timeout=1200 maporder=github.com/matrix-org/gomatrixserverlib.ResolveStateConflictsV2New|github.com/matrix-org/gomatrixserverlib.splitConflictedUnconflicted|github.com/matrix-org/gomatrixserverlib.eventMapFromEvents|github.com/matrix-org/gomatrixserverlib.kahnsAlgorithmUsingAuthEvents|github.com/matrix-org/gomatrixserverlib.kahnsAlgorithmUsingPrevEvents
-// vp:check C11 both configs=version:1|10|12;shape:topic|ban-vs-name K=24 timeout=1200 maporder=github.com/matrix-org/gomatrixserverlib.ResolveStateConflictsV2New|github.com/matrix-org/gomatrixserverlib.splitConflictedUnconflicted|github.com/matrix-org/gomatrixserverlib.eventMapFromEvents|github.com/matrix-org/gomatrixserverlib.kahnsAlgorithmUsingAuthEvents|github.com/matrix-org/gomatrixserverlib.kahnsAlgorithmUsingPrevEvents
+// vp:check C10 both configs=version:10|12;shape:topic|ban-vs-name|ban-vs-invite K=24 timeout=1200 maporder=github.com/matrix-org/gomatrixserverlib.ResolveStateConflictsV2New|github.com/matrix-org/gomatrixserverlib.splitConflictedUnconflicted|github.com/matrix-org/gomatrixserverlib.eventMapFromEvents|github.com/matrix-org/gomatrixserverlib.kahnsAlgorithmUsingAuthEvents|github.com/matrix-org/gomatrixserverlib.kahnsAlgorithmUsingPrevEvents
+// vp:check C11 both configs=version:1|10|12;shape:topic|ban-vs-name|ban-vs-invite K=24 timeout=1200 maporder=github.com/matrix-org/gomatrixserverlib.ResolveStateConflictsV2New|github.com/matrix-org/gomatrixserverlib.splitConflictedUnconflicted|github.com/matrix-org/gomatrixserverlib.eventMapFromEvents|github.com/matrix-org/gomatrixserverlib.kahnsAlgorithmUsingAuthEvents|github.com/matrix-org/gomatrixserverlib.kahnsAlgorithmUsingPrevEvents
+// vp:check C11 both configs=version:1|2|10;shape:two-members K=24 timeout=1200 maporder=github.com/matrix-org/gomatrixserverlib.ResolveStateConflictsV2New|github.com/matrix-org/gomatrixserverlib.splitConflictedUnconflicted|github.com/matrix-org/gomatrixserverlib.eventMapFromEvents|github.com/matrix-org/gomatrixserverlib.kahnsAlgorithmUsingAuthEvents|github.com/matrix-org/gomatrixserverlib.kahnsAlgorithmUsingPrevEvents
 // vp_C11_resolve: ResolveConflictsNew on two state sets forked after an agreed base (create, join, power levels):
 // the result set is the same for both orders of the state sets, for permuted events inside the sets, for every map
 // iteration order, with auth events listed twice; it has one event per (type, state_key), consists of supplied events,
@@ -106,11 +107,33 @@ func vp_C11_resolve() {
 		extraAuth = append(extraAuth, bobJoin)
 		fa = vpSetAuth(vpMkEvent(ver, "$ban:x", h.room, vpAlice, spec.MRoomMember, vpStrPtr(vpBob), vpJObj("membership", spec.Ban)), append(authIDs, "$bj:x"), tsA, 5)
 		fb = vpSetAuth(vpMkEvent(ver, "$tb:x", h.room, vpBob, "m.room.topic", vpStrPtr(""), vpJObj("topic", "B")), []string{h.createID, "$pl:x", "$bj:x"}, tsB, 5)
+		if vpConfig("shape") == "ban-vs-invite" {
+			// branch B: Bob invites Zara, who has no membership anywhere (invite level 0). Zara's key is missing from the
+			// partial state when the invite is auth-checked, so the fall-back to the event's own auth events is taken
+			// while Bob's key is already resolved (to the ban)
+			fb = vpSetAuth(vpMkEvent(ver, "$inv:x", h.room, vpBob, spec.MRoomMember, vpStrPtr("@z:x"), vpJObj("membership", spec.Invite)), []string{h.createID, "$pl:x", "$bj:x"}, tsB, 5)
+		}
 	}
 	setA := append(append([]PDU{}, h.base...), fa)
 	setB := append(append([]PDU{}, h.base...), fb)
 	agreed := h.base
-	if vpConfig("shape") != "topic" {
+	if vpConfig("shape") == "two-members" {
+		// two membership keys conflicted at once, the sender of one candidate being the user of the other key:
+		// invite-only room; set A: Alice invites Bob, Alice invites Carol; set B: Bob has joined on that invite and
+		// Bob invites Carol. The blocks of one type must be resolved against the same auth state whatever their order.
+		jr := vpSetAuth(vpMkEvent(ver, "$jr:x", h.room, vpAlice, spec.MRoomJoinRules, vpStrPtr(""), vpJObj("join_rule", spec.Invite)), authIDs, 4, 4)
+		h.base = append(h.base[:3:3], jr)
+		agreed = h.base
+		ids := append(append([]string{}, authIDs...), "$jr:x")
+		bobInvite := vpSetAuth(vpMkEvent(ver, "$bi:x", h.room, vpAlice, spec.MRoomMember, vpStrPtr(vpBob), vpJObj("membership", spec.Invite)), ids, 10+vpNondetBits("ts.bi", 3), 5)
+		bobJoin := vpSetAuth(vpMkEvent(ver, "$bj:x", h.room, vpBob, spec.MRoomMember, vpStrPtr(vpBob), vpJObj("membership", spec.Join)), append(append([]string{}, ids...), "$bi:x"), 20+vpNondetBits("ts.bj", 3), 6)
+		carolByAlice := vpSetAuth(vpMkEvent(ver, "$ca:x", h.room, vpAlice, spec.MRoomMember, vpStrPtr(vpCarol), vpJObj("membership", spec.Invite)), ids, tsA+30, 7)
+		carolByBob := vpSetAuth(vpMkEvent(ver, "$cb:x", h.room, vpBob, spec.MRoomMember, vpStrPtr(vpCarol), vpJObj("membership", spec.Invite)), append(append([]string{}, ids...), "$bj:x"), tsB+30, 8)
+		fa, fb = carolByAlice, carolByBob
+		extraAuth = append(extraAuth, bobInvite)
+		setA = append(append([]PDU{}, h.base...), bobInvite, carolByAlice)
+		setB = append(append([]PDU{}, h.base...), bobJoin, carolByBob)
+	} else if vpConfig("shape") != "topic" {
 		// branch A replaces Bob's join by the ban: the (member, Bob) key is not agreed
 		setA = append(append([]PDU{}, h.base[:len(h.base)-1]...), fa)
 		agreed = h.base[:len(h.base)-1]
@@ -160,7 +183,7 @@ func vp_C11_resolve() {
 	vpAssert("fixed-point", err3 == nil && vpSameIDSet(r3, setA))
 	// the state the v2 / v2.1 algorithm defines for these shapes (C10)
 	n, _ := vpVerNum(ver)
-	if n >= 2 {
+	if n >= 2 && vpConfig("shape") != "two-members" {
 		if vpConfig("shape") == "topic" {
 			// two non-power events on the same mainline position: ordered by (timestamp, ID), the later one is applied last
 			bWins := tsB > tsA || (tsB == tsA && fb.EventID() > fa.EventID())
@@ -169,7 +192,7 @@ func vp_C11_resolve() {
 			// (fixed: KF-C10-1 - under v2.1 the auth fallback supplied the event itself, so both candidates were dropped)
 			vpAssert("v2-topic-winner", got[fb.EventID()] == bWins && got[fa.EventID()] == !bWins)
 		} else {
-			// the ban is a power event and is applied first; Bob's topic then fails the auth check
+			// the ban is a power event and is applied first; Bob's topic / invite then fails the auth check
 			vpAssert("v2-ban-applied", got[fa.EventID()])
 			vpAssert("v2-banned-users-event-dropped", !got[fb.EventID()])
 		}
